@@ -235,23 +235,34 @@ Inductive cell := CVal (v : option Q)    (* the library number, None = NaN / abs
 Fixpoint assoc_str (k : string) (l : list (string * string)) : option string :=
   match l with [] => None | (a, b) :: r => if String.eqb k a then Some b else assoc_str k r end.
 
-Definition created_cell (mapping : list (string * string)) (writes : list string) (col : string) (s : pipe_rec) : cell :=
+Definition created_cell (mapping : list (string * string)) (writes : list string) (udef : option Q)
+                        (col : string) (s : pipe_rec) : cell :=
   match assoc_str col mapping with
   | None => CNotFromStdType
   | Some key =>
       if existsb (String.eqb key) writes then
         (if String.eqb key "u_w_per_m2k" then
-           match s_u_w_per_mk s with Some _ => CDerived | None => CVal (std_field key s) end
+           match s_u_w_per_mk s, s_u_w_per_m2k s with
+           | Some _, _ => CDerived
+           | None, Some v => CVal (Some v)
+           | None, None => CVal udef          (* no heat transfer value in the library: retrieve_u's default *)
+           end
          else CDerived)
       else CVal (std_field key s)
   end.
 
 Definition std_columns : list string := ["inner_diameter_mm"; "outer_diameter_mm"; "k_mm"; "u_w_per_m2k"]%string.
 
-Definition reaches_unchanged (mapping : list (string * string)) (writes : list string) (s : pipe_rec) : bool :=
-  forallb (fun col => match created_cell mapping writes col s with
-                      | CVal v => match v, std_field col s with
-                                  | Some a, Some b => Qeq_bool a b | None, None => true | _, _ => false end
+Definition opt_q_eqb (a b : option Q) : bool :=
+  match a, b with Some x, Some y => Qeq_bool x y | None, None => true | _, _ => false end.
+
+Definition reaches_unchanged (mapping : list (string * string)) (writes : list string) (udef : option Q) (s : pipe_rec) : bool :=
+  forallb (fun col => match created_cell mapping writes udef col s with
+                      | CVal v => match std_field col s with
+                                  | Some b => opt_q_eqb v (Some b)
+                                  | None => String.eqb col "u_w_per_m2k" && opt_q_eqb v udef &&
+                                            match s_u_w_per_mk s with None => true | Some _ => false end
+                                  end
                       | CDerived => String.eqb col "u_w_per_m2k" &&
                                     match s_u_w_per_mk s, s_u_w_per_m2k s with Some _, None => true | _, _ => false end
                       | CNotFromStdType => false end) std_columns.
